@@ -183,6 +183,48 @@ def run_history(ctx, pcirc, extra, steps, replay):
     return True
 
 
+def block_results_stream(ctx, rng):
+    """every library block: solve, keep the result, solve the same object again at other values; the kept result
+    (and one obtained through a single-structure solver) must not change and must not share memory with the model"""
+    L = impl.lk()
+    for name, (factory, params) in c04.block_factories().items():
+        if name == "FPRGaussian" or not params:
+            continue
+        for wrap in (False, True):
+            ctx.case(("block-result", name, wrap), tags=["stream:block-results", f"block:{name}"])
+            rep = {"kind": "block-result", "block": name, "wrapped": wrap}
+            try:
+                m = factory()
+                if wrap:
+                    target = L.Solver(name="single")
+                    with target:
+                        m.put()
+                        L.raise_pins()
+                else:
+                    target = m
+                p1 = {k: lo + 0.3 * (hi - lo) for k, (lo, hi) in params.items()}
+                p2 = {k: lo + 0.8 * (hi - lo) for k, (lo, hi) in params.items()}
+                r1 = target.solve(**p1)
+                keep = np.array(r1.S, copy=True)
+                keep_params = copy.deepcopy(r1.solved_params)
+                r2 = target.solve(**p2)
+                fresh = factory().solve(**p1)
+                if np.array(r1.S).shape != keep.shape or np.max(np.abs(np.array(r1.S) - keep)) > 0:
+                    ctx.violation("C06:result-mutated", f"{name} ({'single-structure solver' if wrap else 'bare model'}): the matrix of an earlier result changed when the same object was solved again", rep)
+                    continue
+                if repr(r1.solved_params) != repr(keep_params):
+                    ctx.violation("C06:result-mutated", f"{name}: solved_params of an earlier result changed", rep)
+                    continue
+                # write-and-restore aliasing probe between the model's buffer and the results
+                for obj in (m,):
+                    buf = getattr(obj, "S", None)
+                    if isinstance(buf, np.ndarray) and (np.shares_memory(buf, r1.S) or np.shares_memory(buf, r2.S)):
+                        ctx.violation("C06:result-aliases-model", f"{name}: a returned result shares memory with the model's own buffer", rep)
+                        break
+            except Exception as e:  # noqa
+                ctx.violation(f"C06:block-result-raised-{type(e).__name__}", f"{name}: {type(e).__name__}: {str(e)[:60]}", rep)
+
+
 def gen_kw(rng):
     r = rng.random()
     if r < 0.2:
@@ -214,6 +256,7 @@ def kw_json(kw):
 
 def run(ctx):
     rng = ctx.subrng("c06")
+    block_results_stream(ctx, rng)
     n = ctx.budget(120, 1500)
     maxs = 8 if ctx.tier == "quick" else 14
     for i in range(n):
@@ -261,6 +304,11 @@ def run(ctx):
 
 def replay(ctx, data):
     from common import parse_cfrac
+    if data.get("kind") == "block-result":
+        block_results_stream(ctx, ctx.subrng("c06"))
+        if ctx.violations:
+            return False, ctx.violations[0]["what"]
+        return True, "results of library blocks are snapshots"
     pcirc = c04.pcirc_from_json(data["pcirc"])
     e = data["extra"]
     k = len(e["pins"])
